@@ -27,6 +27,7 @@ type SpecEnv struct {
 	entryHeap map[string]string // heap at entry of the loop whose invariant is evaluated
 	fvs     map[string]Val // captured variables of a closure under contract: name -> pointer to its cell
 	foreign bool           // the contract evaluated belongs to a callee, not to frame.fn
+	atcallHeap map[string]string // callback rule: the heap in which atcall(e) is evaluated
 }
 
 func (e *SpecEnv) child() *SpecEnv {
@@ -594,6 +595,30 @@ func (c *FnCtx) evalCall(env *SpecEnv, e *Expr) (Val, error) {
 		sub := env.child()
 		sub.heap = env.entryHeap
 		return c.eval(sub, e.Args[0])
+	case "atcall":
+		// atcall(e), in the invariant of a closure used as a callback: the value e had when the
+		// function that receives the closure was called. At the caller (callback rule) it is e in
+		// the pre-state of that call; while the closure itself is verified it is a rigid unknown -
+		// the same constant at entry and at every return.
+		if len(e.Args) != 1 {
+			return Val{}, fmt.Errorf("atcall(e) takes one argument")
+		}
+		if env.atcallHeap != nil {
+			sub := env.child()
+			sub.heap = env.atcallHeap
+			return c.eval(sub, e.Args[0])
+		}
+		v, err := c.eval(env, e.Args[0])
+		if err != nil {
+			return Val{}, err
+		}
+		if !v.IsScalar() {
+			return Val{}, fmt.Errorf("atcall(e) needs a scalar expression")
+		}
+		n := sym("atcall|" + e.Args[0].String())
+		c.declare(n, leafSort(v.K))
+		v.S, v.A = n, nil
+		return v, nil
 	case "unlocked":
 		// unlocked(e): e evaluated after everything guarded by a mutex that is not held has been
 		// given an arbitrary value (interference by other threads between critical sections)
